@@ -297,7 +297,7 @@ StructIsOperational ==
 
 ----------------------------------------------------------------------------
 (* Vector emission *)
-OpName(o) == o.kind \o "=" \o o.cls
+OpName(o) == o.kind \o ToString(8 * o.w) \o "=" \o o.cls
 CorClass == IF cor = <<>> THEN "none"
             ELSE IF Len(cor) = 1 THEN OpName(cor[1])
             ELSE OpName(cor[1]) \o "+" \o OpName(cor[2])
